@@ -59,19 +59,29 @@ func (r *c08) Exec(op []string) string {
 		} else if len(r.ev) == 1 && r.c.Len() == before {
 			r.st.Note("put-evicts-or-replaces")
 		}
+		if len(r.ev) > 0 && before >= 16 {
+			r.st.Note("put-evicts-at-len>=16")
+		}
 		return r.obs(fmtBool(ok))
 	case "get":
 		v, ok := r.c.Get(atoi(op[1]))
 		if ok {
 			r.st.Note("get-hit")
+			if r.c.Len() >= 16 {
+				r.st.Note("get-hit-at-len>=16")
+			}
 		}
 		return r.obs(fmtPop(v, ok))
 	case "has":
 		return r.obs(fmtBool(r.c.Has(atoi(op[1]))))
 	case "remove":
+		before := r.c.Len()
 		ok := r.c.Remove(atoi(op[1]))
 		if ok {
 			r.st.Note("remove-hit")
+			if before >= 16 {
+				r.st.Note("remove-hit-at-len>=16")
+			}
 		}
 		return r.obs(fmtBool(ok))
 	case "clear":
@@ -93,9 +103,29 @@ func genC08(g *G) {
 		limit := 1 + g.Intn(12)
 		mode := g.Pick("unit", "unit", "var")
 		keys := limit + 1 + g.Intn(limit+3)
+		// Larger caches (second audit §1 C08): with limit ≤ 12 the heap under the LRU store has at most four levels
+		// and no hit ever happens at Len ≥ 16.  One case in five: unit sizes with limit 16..64, or sizes v%5 with
+		// limit 20..100, filled first, then churned with a key range only slightly larger than what fits.
+		big := c%5 == 2
+		if big {
+			if mode == "unit" {
+				limit = 16 + g.Intn(49)
+				keys = limit + 1 + g.Intn(limit/4+2)
+			} else {
+				limit = 20 + g.Intn(81)
+				keys = limit/2 + 1 + g.Intn(limit/4+2)
+			}
+		}
 		ops := []string{fmt.Sprintf("reset %d %s %d", limit, mode, keys)}
 		nops := 8 + g.Intn(maxOps)
 		val := 1
+		if big {
+			for _, k := range g.R.Perm(keys) {
+				ops = append(ops, fmt.Sprintf("put %d %d", k, val*5+1+g.Intn(4)))
+				val++
+			}
+			nops = len(ops) + 40 + g.Intn(g.Scale(120, 400))
+		}
 		for len(ops) < nops {
 			k := g.Intn(keys)
 			switch x := g.Intn(100); {
